@@ -84,6 +84,15 @@ def join (sep : List Nat) : List (List Nat) → List Nat
   | [l] => l
   | l :: ls => l ++ sep ++ join sep ls
 
+/-- `sorted(xs, key=key)`: Python's sort is stable, so the result is THE stable sorted permutation; computed here by
+    insertion (an element goes behind every earlier element whose key is not greater). `lt` is `<` on keys. -/
+def insertBy {α κ} (lt : κ → κ → Bool) (key : α → κ) (a : α) : List α → List α
+  | [] => [a]
+  | b :: bs => if lt (key a) (key b) then a :: b :: bs else b :: insertBy lt key a bs
+
+def sortedBy {α κ} (lt : κ → κ → Bool) (key : α → κ) (xs : List α) : List α :=
+  xs.foldl (fun acc a => insertBy lt key a acc) []
+
 /-- `min(a, b)` / `max(a, b)` on ints -/
 def imin (a b : Int) : Int := if b < a then b else a
 def imax (a b : Int) : Int := if b > a then b else a
